@@ -12,6 +12,24 @@ TB_A = ("Trusted: CPython operator dispatch on engine.forksym.Lin, z3 linear ari
         "Stubs: tqdm -> identity, stderr -> sink.")
 
 CHECKS = {
+    "C13": dict(
+        technique="bounded symbolic execution (z3 LRA, symbolic node sizes) of layout.compute + tikz.render; census compared with independent event/loss oracle on every path",
+        text="Layout and renderer run on symbolic node sizes in both orientations; every feasible ordering of their comparisons (including the "
+             "direction of every transfer arrow) is a path. On each path: one branch per object node in its species with the kind the evaluator "
+             "and the oracle assign, one loss pseudo-gene per counted full loss in the species where it occurs, one TikZ node statement per "
+             "branch with the matching style, one transfer arrow per transfer ending at the transferred child's anchor; z3 proves every size "
+             "attached to the node it was measured for.",
+        design="5/C13", engine="forksym",
+        note="Trusted: engine.forksym over z3 LRA; stub measurer bound to render.layout.measure_nodes; engine/oracles/recon.py for events and loss locations."),
+    "C15": dict(
+        technique="CrossHair (symbolic str) for tex.escape; bounded symbolic execution (symbolic node sizes) of the renderer with TikZ lexer + colour/label oracle; exhaustive enumeration for the wrapper",
+        text="tex.escape is confirmed by CrossHair over all paths for every string up to the bound against a character-wise specification (with a "
+             "reachability twin). The renderer runs on symbolic sizes; on every feasible path the text passes a TikZ lexer, every colour used is "
+             "defined before the picture, node and loss-marker colours equal the nearest coloured ancestor-or-self, labels list the families in "
+             "order and ancestral labels are omitted iff equal to the parent's. balanced_wrap/format_synteny are enumerated exhaustively over the "
+             "property's small word space (stated as enumeration: textwrap needs concrete strings).",
+        design="5/C15", engine="crosshair",
+        note="Trusted: CrossHair 0.0.110 + z3; TikZ acceptance approximated by a lexer; names restricted to letters, digits, underscore, backslash."),
     "C14": dict(
         technique="bounded symbolic execution over linear real arithmetic (z3 LRA) of layout.compute / tikz.render with symbolic node sizes and drawing parameters",
         text="Every node's width/height and the numeric drawing parameters are symbolic positive reals; every feasible ordering of the layout's "
